@@ -301,7 +301,15 @@ func scRenderMode(items []scItem, mode int) *scRender {
 			case "call":
 				add(i, "local ", decl("n", it.N, it.ID, "local"), " = tostring(", use("u", it.U, it.B, it.Alt), ")")
 			case "table":
-				add(i, "local ", decl("n", it.N, it.ID, "local"), " = {", use("u", it.U, it.B, it.Alt), "}")
+				// the name is read inside a table constructor: as a positional value, as a computed key or as a named value
+				switch (it.ID + len(items)) % 3 {
+				case 1:
+					add(i, "local ", decl("n", it.N, it.ID, "local"), " = {[", use("u", it.U, it.B, it.Alt), "] = 1}")
+				case 2:
+					add(i, "local ", decl("n", it.N, it.ID, "local"), " = {k = ", use("u", it.U, it.B, it.Alt), "}")
+				default:
+					add(i, "local ", decl("n", it.N, it.ID, "local"), " = {", use("u", it.U, it.B, it.Alt), "}")
+				}
 			}
 		case "local2":
 			if it.Attr {
